@@ -12,7 +12,10 @@ SecOK(r, T, vp, fs, o) ==
 JSection(r) ==
     LET o == r.out T == r.T vp == r.vpos fs == r.faces IN
     /\ Clause(i, "C13.section.ok", o.ok)
-    /\ o.ok =>
+    /\ (o.ok /\ "tolloop" \in DOMAIN r) =>
+       /\ Clause(i, "C13.section.finite", o.finite)
+       /\ Clause(i, "C13.section.tolerance_keeps_loop_within_tolerance", TolLoopOK(T, vp, fs, r.n, r.dn, r.dd, o.curves, r.stol16))
+    /\ (o.ok /\ ~("tolloop" \in DOMAIN r)) =>
        /\ Clause(i, "C13.section.finite", o.finite)
        /\ Clause(i, "C13.section.on_plane_and_surface_each_segment_once",
                  SecOK(r, T, vp, fs, o))
